@@ -73,6 +73,11 @@ def run(ctx):
     if int(stats.get("perm.compared", 0)) == 0 and not getattr(ctx, "replay", None):
         ctx.violation("no permutation comparison was executed (generator broke or no error-free set)",
                       {"kind": "correspondence-broken", "stats": stats}, no_input=True, kind="model!=impl")
+    if not getattr(ctx, "replay", None):
+        import sys
+        sys.path.insert(0, "/verif/checks")
+        import c24_cli
+        c24_cli.run_cli(ctx)
     if not ok:
         if not any(not ni for _, _, ni in ctx.violations):
             proof_broken(ctx, "VerylModel.Props.C24 no longer checks")
